@@ -149,10 +149,25 @@ def check_doc(acc, src, items):
             acc.ok(hash(t), cls='truncated-repaired')
 
 
+# environment names of which one is a prefix of the other, closers cut inside the name
+NAME_SYMS = ['\\begin{e}', '\\begin{ee}', '\\begin{e*}', '\\end{e}', '\\end{ee}', '\\end{e*}', '\\end{e', '\\end{ee', 'a', '}']
+
+
+def name_strings(first):
+    """every string of <= 4 NAME_SYMS starting with symbol number `first` that opens at least one environment"""
+    import itertools
+    for k in range(0, 4):
+        for t in itertools.product(NAME_SYMS, repeat=k):
+            s = NAME_SYMS[first] + ''.join(t)
+            if '\\begin' in s:
+                yield s
+
+
 def shards(tier):
     out = [dict(s, kind='sigma') for s in strings.shards('quick' if tier == 'quick' else 'thorough')]
     plan = 'small-quick' if tier == 'quick' else 'small-thorough'
     out += [dict(s, kind='doc') for s in layers.shards(plan, ())]
+    out += [{'kind': 'names', 'first': i} for i in range(len(NAME_SYMS))]
     return out
 
 
@@ -165,6 +180,9 @@ def run_shard(shard):
     if shard['kind'] == 'sigma':
         for s in strings.iter_strings(shard):
             check_string(acc, s, 'sigma-' + shard['alpha'])
+    elif shard['kind'] == 'names':
+        for s in name_strings(shard['first']):
+            check_string(acc, s, 'environment names')
     else:
         for text, items in layers.iter_docs(shard):
             check_doc(acc, text, items)
@@ -212,7 +230,8 @@ def coverage(tier, total):
     plan = 'quick' if tier == 'quick' else 'thorough'
     lp = 'small-quick' if tier == 'quick' else 'small-thorough'
     return {
-        'rule': 'part 1+3: all strings of <= n symbols over the token-kind alphabets (%s) and all L_wf documents of (%s), '
+        'rule': 'part 1+3: all strings of <= n symbols over the token-kind alphabets (%s), all strings of <= 4 symbols over ten '
+                '\\begin/\\end symbols whose names are prefixes of one another or cut short, and all L_wf documents of (%s), '
                 'both tolerance modes; part 2: every structural closer of every eligible document deleted; every '
                 'truncation point (part 3).  distinct = distinct inputs whose strict or tolerant parse succeeds' % (
                     ', '.join('%s n<=%d' % p for p in strings.PLAN[plan]),
